@@ -75,12 +75,17 @@ def run_traced(mod, path, prog, k, sample_rate=None, with_flight=True, rng_seed=
         return code.co_filename == path
 
     results = []
+    slots = {}
+    if prog.get("pre"):
+        run_entries(mod, prog["pre"], results, slots=slots, keep=True)
     with trace_calls(logger, k, flt, sample_rate):
         tracer = sys.getprofile()
+        if rng_seed is not None:
+            getattr(tracer, "_random", random).seed(rng_seed)  # replayable sampling draws (the tracer has its own generator)
         if fl:
             fl.start()
         try:
-            run_entries(mod, prog["entries"], results)
+            run_entries(mod, prog["entries"], results, slots=slots)
         finally:
             if fl:
                 fl.stop()
@@ -236,7 +241,10 @@ def work(p):
         rng = random.Random(spec["seed"])
         opts = {}
         if spec.get("values"):
-            opts["values"] = rng.sample(gv.BASIS, 12)
+            opts["values"] = rng.sample([e for e in gv.BASIS if "lambda" not in e], 12)
+        if spec.get("prestart"):
+            opts["prestart"] = True
+            res.count("prestart_programs")
         if spec.get("literal"):
             prog = dict(spec["literal"], name=spec["name"])
             res.count("pinned_witnesses")
@@ -292,7 +300,7 @@ def specs(ck, n, ks, abandon_frac=0.1, values_frac=0.15):
         r = ck.rng("prog", i)
         out.append({
             "name": f"vfprog_{ck.seed}_{i}", "seed": f"{ck.prop}:{ck.seed}:{i}", "k": r.choice(ks), "nfuncs": r.choice([8, 12, 16, 20]),
-            "live": r.choice([2, 4, 6]), "abandon": r.random() < abandon_frac, "values": r.random() < values_frac, "control": i % 5 == 0,
+            "live": r.choice([2, 4, 6]), "abandon": r.random() < abandon_frac, "values": r.random() < values_frac, "control": i % 5 == 0, "prestart": i % 7 == 3,
         })
     return out
 
@@ -354,6 +362,7 @@ def run(ck):
     ck.need("interleavings", 50, "fewer than 50 distinct interleaving orders of live frames")
     ck.need("control_runs", 20)
     ck.need("twin_cases", 1)
+    ck.need("prestart_programs", 50)
     for ek in ("exception:plain", "const-return:plain", "return:plain", "return:generator", "const-return:generator", "exception:generator",
                "return:coroutine", "const-return:coroutine", "exception:coroutine"):
         ck.counters["exit:" + ek] = 1 if ek in ck.sets.get("exit_kinds", ()) else 0
